@@ -6,8 +6,8 @@
     (i)   C07_frame — generic: handlers that read shared state and write only request-local state
           give, in every interleaving with any other requests, the response they give alone.
           Its premise is discharged on the generated tables: C07_handlers_write_no_shared_state.
-    (ii)  C07_lockset_* — race_pairs over the generated tables: empty for the asset state, equal to
-          the recorded finding for the ingester manager.
+    (ii)  C07_lockset_* — race_pairs over the generated tables: empty for the asset state and (since
+          fix commit ee6ff88) for the CMAF-ingester manager and its sessions.
     (iii) C07_find_asset / C07_find_rep — the two look-ups that range over Go maps, modelled with
           an arbitrary iteration order: functions of the URL for the code as it is now (longest
           matching asset path; anchored quoted pattern, under a stated hypothesis on the media
@@ -73,50 +73,49 @@ Proof. exact (races_known_all_race_free C07_asset_tables C07_lockset_assets).
 Qed.
 Print Assumptions C07_asset_state_race_free.
 
-(** The ingester manager (findings c07-ingester-mgr-maps, c07-ingester-state): its two maps are
-    written by the create handler and read by the info/step/delete handlers with no lock; the
-    session goroutine writes state/report that handlers read. Every unprotected pair of the
-    regenerated table must be one of these (a new one fails this theorem). Pairs between two
-    accesses of role ingest are listed because the decision conservatively assumes several session
-    goroutines per object. *)
-Definition C07_known_mgr_races : list kpair :=
-  [("cancels[]", ("cmafIngesterMgr.Close", "R:handler:[]"), ("cmafIngesterMgr.startIngester", "W:handler:[]"));
-   ("cancels[]", ("cmafIngesterMgr.startIngester", "W:handler:[]"), ("cmafIngesterMgr.startIngester", "W:handler:[]"));
-   ("cancels[]", ("cmafIngesterMgr.startIngester", "W:handler:[]"), ("createDeleteCmafIngesterHdlr$closure", "R:handler:[]"));
-   ("ingesters[]", ("cmafIngesterMgr.Close", "R:handler:[]"), ("cmafIngesterMgr.NewCmafIngester", "W:handler:[]"));
-   ("ingesters[]", ("cmafIngesterMgr.NewCmafIngester", "W:handler:[]"), ("cmafIngesterMgr.NewCmafIngester", "W:handler:[]"));
-   ("ingesters[]", ("cmafIngesterMgr.NewCmafIngester", "W:handler:[]"), ("cmafIngesterMgr.startIngester", "R:handler:[]"));
-   ("ingesters[]", ("cmafIngesterMgr.NewCmafIngester", "W:handler:[]"), ("createDeleteCmafIngesterHdlr$closure", "R:handler:[]"));
-   ("ingesters[]", ("cmafIngesterMgr.NewCmafIngester", "W:handler:[]"), ("createGetCmafIngesterInfoHdlr$closure", "R:handler:[]"));
-   ("ingesters[]", ("cmafIngesterMgr.NewCmafIngester", "W:handler:[]"), ("createStepCmafIngesterHdlr$closure", "R:handler:[]"))].
-
-Definition C07_known_ingester_races : list kpair :=
-  [("report", ("cmafIngester.start", "R:ingest:[]"), ("cmafIngester.start", "W:ingest:[]"));
-   ("report", ("cmafIngester.start", "W:ingest:[]"), ("cmafIngester.start", "W:ingest:[]"));
-   ("report", ("cmafIngester.start", "W:ingest:[]"), ("createGetCmafIngesterInfoHdlr$closure", "R:handler:[]"));
-   ("state", ("cmafIngester.start", "W:ingest:[]"), ("cmafIngester.start", "W:ingest:[]"));
-   ("state", ("cmafIngester.start", "W:ingest:[]"), ("cmafIngester.start$closure", "W:ingest:[]"));
-   ("state", ("cmafIngester.start", "W:ingest:[]"), ("cmafIngesterMgr.Close", "R:handler:[]"));
-   ("state", ("cmafIngester.start", "W:ingest:[]"), ("createDeleteCmafIngesterHdlr$closure", "R:handler:[]"));
-   ("state", ("cmafIngester.start$closure", "W:ingest:[]"), ("cmafIngester.start$closure", "W:ingest:[]"));
-   ("state", ("cmafIngester.start$closure", "W:ingest:[]"), ("cmafIngesterMgr.Close", "R:handler:[]"));
-   ("state", ("cmafIngester.start$closure", "W:ingest:[]"), ("createDeleteCmafIngesterHdlr$closure", "R:handler:[]"))].
+(** The CMAF-ingester manager and its sessions (REST API). Since fix commit ee6ff88 the two maps of
+    cmafIngesterMgr are accessed only inside its mutex and state/report of a session only inside the
+    session's mutex: the regenerated tables have no unprotected conflicting pair, and the only
+    writes by handlers are the two locked insertions. *)
+Definition C07_ingester_tables : list (list access) := [Access.cmafIngesterMgr; Access.cmafIngester].
 
 Definition C07_known_mgr_writes : list kwrite :=
-  [("cancels[]", ("cmafIngesterMgr.startIngester", "W:handler:[]"));
-   ("ingesters[]", ("cmafIngesterMgr.NewCmafIngester", "W:handler:[]"));
-   (* with proposed_fixes/C07-ingester-locks.diff: the same two writes, inside the manager's mutex *)
-   ("cancels[]", ("cmafIngesterMgr.setCancel", "W:handler:[L:mu]"));
+  [("cancels[]", ("cmafIngesterMgr.setCancel", "W:handler:[L:mu]"));
    ("ingesters[]", ("cmafIngesterMgr.addIngester", "W:handler:[L:mu]"))].
 
 Theorem C07_lockset_ingester :
-  races_known Access.cmafIngesterMgr C07_known_mgr_races = true /\
-  races_known Access.cmafIngester C07_known_ingester_races = true /\
+  forallb (fun T => races_known T []) C07_ingester_tables = true /\
   writes_known Access.cmafIngesterMgr C07_known_mgr_writes = true /\
-  writes_known Access.cmafIngester [] = true.
+  writes_known Access.cmafIngester [] = true /\
+  forallb (fun T => negb (Nat.eqb (length T) 0)) C07_ingester_tables = true.
 Proof. vm_compute. repeat split.
 Qed.
 Print Assumptions C07_lockset_ingester.
+
+(** Hence no data race on the ingester manager and the sessions, in any schedule. *)
+Theorem C07_ingester_race_free : forall T, In T C07_ingester_tables ->
+  forall tr, valid multi_all T tr ->
+  forall pre mid post t1 a1 t2 a2,
+    tr = pre ++ EAcc t1 a1 :: mid ++ EAcc t2 a2 :: post ->
+    t1 <> t2 -> a_field a1 = a_field a2 -> a_write a1 || a_write a2 = true ->
+    hb tr (length pre) (length pre + 1 + length mid).
+Proof. exact (races_known_all_race_free C07_ingester_tables (proj1 C07_lockset_ingester)).
+Qed.
+Print Assumptions C07_ingester_race_free.
+
+(** As found (parent of ee6ff88; fixed findings c07-ingester-mgr-maps, c07-ingester-state): the create
+    handler wrote the map while the info handler read it, neither holding a lock - flagged by the
+    decision, and really unordered: a valid schedule in which the two accesses are not ordered by
+    happens-before. The same for the session goroutine's write of [report] and the info handler's read. *)
+Theorem C07_ingester_asfound_refuted :
+  let w := mkAccess "ingesters[]" "cmafIngesterMgr.NewCmafIngester" true RHandler [] in
+  let r := mkAccess "ingesters[]" "createGetCmafIngesterInfoHdlr$closure" false RHandler [] in
+  races multi_all w r = true /\
+  valid multi_all [w; r] (unordered_trace w r "none") /\
+  ~ hb (unordered_trace w r "none") 1 2.
+Proof. exact ingester_asfound_races.
+Qed.
+Print Assumptions C07_ingester_asfound_refuted.
 
 (** * (iii) The look-ups that range over Go maps
 
